@@ -134,3 +134,15 @@ pub struct UnusualIdentifiersExpand;
 /// struct W { #[serde(skip_serializing_if = "Option::is_none", alias = "ж")] a_b: Option<i32> }
 /// ```
 pub struct UnknownSerdeIsInert;
+
+/// Items with defaulted generic parameters (type and const) must expand to an impl that compiles.
+/// ```no_run
+/// #![allow(dead_code)]
+/// #[derive(ts_rs::TS)]
+/// struct Buffer<const N: usize = 4> { data: [u8; N] }
+/// #[derive(ts_rs::TS)]
+/// struct Page<'a, T = i32, const K: usize = { 1 + 1 }> where T: Clone { items: &'a [T; K] }
+/// #[derive(ts_rs::TS)]
+/// enum Either<L = String, R = L> { Left(L), Right(R) }
+/// ```
+pub struct DefaultedGenericsExpand;
